@@ -328,9 +328,33 @@ def run_job(job):
             if job["cc"] == "WOR":
                 out = run_world(opts, "v%d_WOR_%s" % (os.getpid(), job["preset"]))
             else:
-                out = ScenarioRunnerNoTrade().run_model_no_trade(
-                    title="v%d_%s_%s" % (os.getpid(), job["cc"], job["preset"]), create_pptx_with_all_countries=False, scenario_option=opts,
-                    countries_list=[job["cc"]], return_results=True)
+                if job.get("with"):
+                    # one by-country call over several countries (one option dictionary for all of them); only the
+                    # observations of the job's own country are kept
+                    orig_rofc = ScenarioRunnerNoTrade.run_optimizer_for_country
+
+                    def w_rofc(self, country_data, *a, **k):
+                        global CAP
+                        if country_data["iso3"] == job["cc"]:
+                            CAP = cap
+                        else:
+                            CAP = dict(herds=[], solves=[], lps=[], interp=[], validators=[])
+                        try:
+                            return orig_rofc(self, country_data, *a, **k)
+                        finally:
+                            CAP = cap
+
+                    ScenarioRunnerNoTrade.run_optimizer_for_country = w_rofc
+                    try:
+                        out = ScenarioRunnerNoTrade().run_model_no_trade(
+                            title="v%d_%s_%s" % (os.getpid(), job["cc"], job["preset"]), create_pptx_with_all_countries=False,
+                            scenario_option=opts, countries_list=list(job["with"]) + [job["cc"]], return_results=True)
+                    finally:
+                        ScenarioRunnerNoTrade.run_optimizer_for_country = orig_rofc
+                else:
+                    out = ScenarioRunnerNoTrade().run_model_no_trade(
+                        title="v%d_%s_%s" % (os.getpid(), job["cc"], job["preset"]), create_pptx_with_all_countries=False, scenario_option=opts,
+                        countries_list=[job["cc"]], return_results=True)
         rec["ok"] = True
         rec["returned"] = dict(world=None if out[0] is None else "obj", net_pop=fl(out[1]), net_pop_fed=fl(out[2]),
                                keys=sorted(out[3].keys()) if isinstance(out[3], dict) else None)
